@@ -363,7 +363,7 @@ pub fn run(report: &mut Report, replay: Option<&Value>) {
         return;
     }
     super::replay_corpus(report, &|r, v| if v["engine"] == "e4" { direct_one(r, &crate::tape::unhex(v["tape_hex"].as_str().unwrap_or(""))) } else { replay_e1(r, v) });
-    direct_campaign(report, if report.thorough() { 300_000 } else { 20_000 });
+    direct_campaign(report, if report.thorough() { 300_000 } else { 100_000 });
     let hooks = Hooks { classify: &classify, classify_compile: &classify_compile, compile_failure_is_violation: true, rebuild: None };
     // depth-0 expressions in the main campaign; lists of ID are a listed finding (probe below)
     let plain: Vec<Vec<bool>> = vec![vec![false], vec![true]];
